@@ -313,6 +313,7 @@ def _docstring_text(description):
         .replace("\\", "\\\\")
         .replace('"""', '\\"\\"\\"')
         .replace("\r", "\\r")
+        .replace("\x00", "\\x00")
     )
 
 
